@@ -136,6 +136,9 @@ fn check_plan(c: &Ctx<'_>, plan: &FaultPlan, rep_out: &mut RunReport) -> Option<
         return None;
     }
     if let Outcome::Panic(m) = &out {
+        if m.contains("SINK-RUNAWAY") {
+            return Some(("F3-write-after-fault".into(), format!("the library kept calling the failed sink ({} calls after the fault, cut off by the harness) under {plan:?}", rep.calls_after_hard)));
+        }
         return Some(("F1-panic".into(), format!("render_to panicked under {plan:?}: {m}")));
     }
     match plan.hard {
